@@ -55,6 +55,14 @@ enum Expected {
 
 //------------ Sequential reference model ----------------------------------------
 
+/// What the source told the server for one well-formed query.
+enum Ans {
+    /// `ready()` returned false: the query is answered with one Error PDU.
+    NotReady,
+    /// The Full/Diff call and the timing values reported around it.
+    Data(SourceCall, Vec<(u32, u32, u32)>),
+}
+
 struct ModelOut {
     /// One entry per query the server must answer, in order.
     expected: Vec<Expected>,
@@ -66,6 +74,10 @@ struct ModelOut {
     /// no longer framed (the server read only its header but the unit is
     /// longer): nothing is specified beyond the Error PDU for it.
     desync: bool,
+    /// The byte stream ends inside a Serial Query whose header has been
+    /// read: the server is waiting for the serial and (by design) does not
+    /// look at notifications until the query is complete.
+    stuck_in_query: bool,
 }
 
 /// Items of a source answer as the PDUs RFC 8210 prescribes for `version`.
@@ -91,8 +103,8 @@ fn eod(version: u8, state: StateKey, timing: (u32, u32, u32)) -> WirePdu {
 /// the logged Full/Diff calls of this connection with the Timing call that
 /// followed each; queries beyond the logged answers are reported through
 /// `well_formed` only.
-fn model(bytes: &[u8], answers: &[(SourceCall, Vec<(u32, u32, u32)>)]) -> Result<ModelOut, Violation> {
-    let mut out = ModelOut { expected: Vec::new(), well_formed: 0, ends: false, desync: false };
+fn model(bytes: &[u8], answers: &[Ans]) -> Result<ModelOut, Violation> {
+    let mut out = ModelOut { expected: Vec::new(), well_formed: 0, ends: false, desync: false, stuck_in_query: false };
     let mut version: Option<u8> = None;
     let mut pos = 0usize;
     let mut next_answer = 0usize;
@@ -130,12 +142,16 @@ fn model(bytes: &[u8], answers: &[(SourceCall, Vec<(u32, u32, u32)>)]) -> Result
                     return Ok(out);
                 }
                 if bytes.len() - pos < 12 {
+                    out.stuck_in_query = true;
                     return Ok(out); // incomplete query: no response required
                 }
                 let serial = u32::from_be_bytes([bytes[pos + 8], bytes[pos + 9], bytes[pos + 10], bytes[pos + 11]]);
                 pos += 12;
                 out.well_formed += 1;
-                if let Some((call, timing)) = answers.get(next_answer) {
+                if let Some(Ans::NotReady) = answers.get(next_answer) {
+                    next_answer += 1;
+                    out.expected.push(Expected::Error { unsupported_version: false });
+                } else if let Some(Ans::Data(call, timing)) = answers.get(next_answer) {
                     next_answer += 1;
                     match &call.kind {
                         CallKind::Diff(from, res) => {
@@ -177,7 +193,10 @@ fn model(bytes: &[u8], answers: &[(SourceCall, Vec<(u32, u32, u32)>)]) -> Result
                 }
                 pos += 8;
                 out.well_formed += 1;
-                if let Some((call, timing)) = answers.get(next_answer) {
+                if let Some(Ans::NotReady) = answers.get(next_answer) {
+                    next_answer += 1;
+                    out.expected.push(Expected::Error { unsupported_version: false });
+                } else if let Some(Ans::Data(call, timing)) = answers.get(next_answer) {
                     next_answer += 1;
                     match &call.kind {
                         CallKind::Full(state) => {
@@ -233,6 +252,7 @@ const A_DRAIN: usize = 5;
 const A_SPURIOUS: usize = 6;
 const A_SENDER_GONE: usize = 7;
 const A_CLIENT_EOF: usize = 8;
+const A_TOGGLE_READY: usize = 9;
 
 impl C08 {
     fn gen_script(t: &mut Tape, src: &VersionedSource, cfg: &Cfg, kind: RunKind, tier: Tier) -> Vec<Unit> {
@@ -399,9 +419,9 @@ impl C08 {
         // ---- schedule ------------------------------------------------------
         let mut sent = 0usize;
         let mut partial_header_notifies = 0u64;
-        let weights: [u64; 9] = match kind {
+        let weights: [u64; 10] = match kind {
             // The sweep drives the grid itself (below).
-            RunKind::Sweep(_) => [1, 0, 0, 0, 0, 0, 0, 0, 0],
+            RunKind::Sweep(_) => [1, 0, 0, 0, 0, 0, 0, 0, 0, 0],
             RunKind::Random => [
                 1,
                 6,
@@ -412,8 +432,10 @@ impl C08 {
                 if ctx.chance(1, 3) { 1 } else { 0 },
                 if ctx.chance(1, 6) { 1 } else { 0 },
                 if ctx.chance(1, 5) { 1 } else { 0 },
+                if cfg.dynamic && ctx.chance(1, 3) { 1 } else { 0 },
             ],
         };
+        let mut effective_notifies = 0u64;
         let mut sender_gone = false;
         let mut closed = false;
 
@@ -426,6 +448,7 @@ impl C08 {
             let slot = (i / 234) % 3;
             let cut = cut.min(script.len());
             if slot == 0 {
+                effective_notifies += 1;
                 notify.notify();
                 ctx.ev(3, 0, || "notify (before first bytes)".into());
                 counters.bump("fault_notify_while_idle");
@@ -440,6 +463,7 @@ impl C08 {
             }
             if slot == 1 {
                 let consumed = c2s.lock().unwrap().n_read as usize;
+                effective_notifies += 1;
                 notify.notify();
                 ctx.ev(3, consumed as u64, || format!("notify (server has consumed {} bytes of the query)", consumed));
                 if consumed > 0 && consumed < 8 {
@@ -496,6 +520,9 @@ impl C08 {
                         };
                         let blocked_write = s2c.lock().unwrap().writer_waker.is_some();
                         notify.notify();
+                        if !closed {
+                            effective_notifies += 1;
+                        }
                         // where does the notify land relative to the byte stream?
                         let off = unit_offset(&units, consumed);
                         ctx.ev(3, off as u64, || {
@@ -528,6 +555,9 @@ impl C08 {
                             counters.bump("fault_update");
                         }
                         if ctx.chance(3, 4) && !sender_gone {
+                            if !closed {
+                                effective_notifies += 1;
+                            }
                             notify.notify();
                             ctx.ev(3, 0, || "notify (after update)".into());
                         }
@@ -560,6 +590,15 @@ impl C08 {
                             counters.bump("fault_notify_channel_closed");
                             ctx.ev(10, 0, || "listener closed and notify sender dropped (channel closes)".into());
                         }
+                    }
+                    A_TOGGLE_READY => {
+                        let r = {
+                            let mut i = source.inner.lock().unwrap();
+                            i.ready = !i.ready;
+                            i.ready
+                        };
+                        counters.bump("fault_source_ready_toggled");
+                        ctx.ev(11, r as u64, || format!("source ready = {}", r));
                     }
                     A_CLIENT_EOF => {
                         // The client shuts down its sending side right now:
@@ -636,14 +675,18 @@ impl C08 {
         let conn_calls: Vec<&SourceCall> = calls.iter().filter(|c| c.clone_id != 0).collect();
         // Each Full/Diff call with the timing values the source reported
         // between the previous and the next Full/Diff call of this connection.
-        let mut answers: Vec<(SourceCall, Vec<(u32, u32, u32)>)> = Vec::new();
+        let mut answers: Vec<Ans> = Vec::new();
         let answer_idx: Vec<usize> = conn_calls
             .iter()
             .enumerate()
-            .filter(|(_, c)| matches!(c.kind, CallKind::Full(_) | CallKind::Diff(..)))
+            .filter(|(_, c)| matches!(c.kind, CallKind::Full(_) | CallKind::Diff(..) | CallKind::Ready(false)))
             .map(|(i, _)| i)
             .collect();
         for (k, i) in answer_idx.iter().enumerate() {
+            if matches!(conn_calls[*i].kind, CallKind::Ready(false)) {
+                answers.push(Ans::NotReady);
+                continue;
+            }
             let lo = if k == 0 { 0 } else { answer_idx[k - 1] + 1 };
             let hi = answer_idx.get(k + 1).copied().unwrap_or(conn_calls.len());
             let mut timings: Vec<(u32, u32, u32)> = Vec::new();
@@ -655,7 +698,7 @@ impl C08 {
                     }
                 }
             }
-            answers.push((conn_calls[*i].clone(), timings));
+            answers.push(Ans::Data(conn_calls[*i].clone(), timings));
         }
         let notified: Vec<StateKey> = conn_calls
             .iter()
@@ -843,6 +886,16 @@ impl C08 {
                 ),
             ));
         }
+        // Update notifications appear as Serial Notify PDUs: when notify() was
+        // called on a live, framed connection, at least one must have been sent
+        // by the time the system is quiescent (bursts may be coalesced).
+        if effective_notifies > 0 && notifies_seen == 0 && !m.ends && !m.desync && !m.stuck_in_query {
+            return Err(Violation::new(
+                "lost-notify",
+                "",
+                format!("notify() was called {} times on a live connection but no Serial Notify was ever sent", effective_notifies),
+            ));
+        }
         counters.add("probe_serial_notifies_seen", notifies_seen);
         counters.add("responses_checked", idx as u64);
         for e in &m.expected {
@@ -942,7 +995,8 @@ impl Scenario for C08 {
 
     fn assumptions(&self) -> Vec<&'static str> {
         vec![
-            "the source reports ready() == true throughout (the not-ready Error PDU is exercised in C06)",
+            "while the source reports ready() == false a well-formed query gets exactly one Error PDU (the statement does not list this case; this is what the code documents) - toggled in the dynamic class",
+            "notify() on a live, framed connection must lead to at least one Serial Notify by the time the system is quiescent (bursts may be coalesced, so only the first is demanded)",
             "erroneous units that are exactly one 8-byte header long (unknown type, other version, too-new version) may appear anywhere and the queries after them must still be answered; an erroneous unit longer than its header (wrong length, Serial Query with a bad version) leaves the stream unframed, so at most one of those per script, placed last, and nothing is required after its Error PDU",
             "Error PDUs are compared by type and framing only, plus code 4 in a supported version for the unsupported-version case",
             "ASPA withdraw PDUs are compared by customer only",
